@@ -41,6 +41,11 @@ func (mp *MemPool) VerifC14SetBest(best uint64, forkVersion int32, acceptChainId
 
 func (mp *MemPool) VerifC14NextVersion() int32 { return mp.nextBlockVersion() }
 
+// VerifC14SetFlags sets the two node-configuration switches validateTx reads (cfg.Mempool.BlockMulticall / BlockDeploy).
+func (mp *MemPool) VerifC14SetFlags(blockMulticall, blockDeploy bool) {
+	mp.blockMulticall, mp.blockDeploy = blockMulticall, blockDeploy
+}
+
 // VerifC14Verify is the verifier actor's step: Validate + signature.
 func (mp *MemPool) VerifC14Verify(tx types.Transaction) error { return mp.verifyTx(tx) }
 
